@@ -144,12 +144,26 @@ the raw-entry API, every closure handed to a table for re-hashing its entries on
 (`insert_with_hasher`, `find_or_find_insert_slot`, `shrink_to`) and every piece of hand-rolled hashing in
 `rodeo.rs`, `reader.rs` and `threaded_rodeo.rs`; all of them must be `hash_one` of one whole string
 (resp. the binding `hash`; for a re-hash closure: of a string the closure binds itself, never a captured
-hash value). -/
+hash value).  The equality closure of every table probe (`from_hash`, `find_or_find_insert_slot`) is listed
+as well (`probeEq`): it has to be `probed string == stored string`, the whole-string comparison the
+model's `tableFind` makes - no shortcut through addresses, lengths, prefixes or a trusted hash. -/
 theorem hash_sites_whole_string :
     (Extracted.hashSites.all fun s => s.shape == .hashOneWhole) = true ∧
     (Extracted.hashSites.any fun s => s.kind == .binding) = true ∧
     (Extracted.hashSites.any fun s => s.kind == .use) = true ∧
-    (Extracted.hashSites.any fun s => s.kind == .rehash) = true := by
+    (Extracted.hashSites.any fun s => s.kind == .rehash) = true ∧
+    (Extracted.hashSites.any fun s => s.kind == .probeEq) = true := by
+  decide
+
+/-- Nothing happens in the four interning functions before the string has been looked up: the effect
+sequences regenerated from the source (in which a `return` or `?` that precedes the lookup would show up as an
+unrecognised effect) begin with the hash and the probe (`Rodeo`), resp. with the lock-free lookup
+(`ThreadedRodeo`).  A string that is already present is therefore found whatever else holds (limits, sizes). -/
+theorem lookup_comes_first :
+    Extracted.rodeoInternEffects.take 2 = [.hashOne, .probe] ∧
+    Extracted.rodeoInternStaticEffects.take 2 = [.hashOne, .probe] ∧
+    Extracted.internEffects.head? = some .fastGet ∧
+    Extracted.internStaticEffects.head? = some .fastGet := by
   decide
 
 end Lasso.C02
